@@ -6,5 +6,5 @@ CONSTANTS
   Clips <- MC_Clips
   Modes = {"custom", "global", "semiglobal", "local"}
 SPECIFICATION Spec
-INVARIANTS ColumnMeaning Final Feasible
+INVARIANTS ColumnMeaning Final Feasible HeavyAgrees
 CHECK_DEADLOCK FALSE
